@@ -368,14 +368,13 @@ Proof.
   cbn [app starts_amp_us]. destruct (dec i ++ [c_us]); reflexivity.
 Qed.
 
-(* complete description of the reader on the writer's bit identifiers *)
+(* complete description of the reader on the writer's bit identifiers: ALWAYS recognised
+   (repaired K4: identifiers "&" / "&_..." used to be recognised only when ending in "_") *)
 Theorem bitname_underscore_full : forall (ident : str) (i : N),
-  sep_underscore (bit_ident ident i) =
-  if negb (starts_amp_us (ident ++ [c_us])) || is_empty (last (split_on c_us ident) [])
-  then (Some i, ident) else (None, bit_ident ident i).
+  sep_underscore (bit_ident ident i) = (Some i, ident).
 Proof.
   intros ident i. destruct us_not_digit as [Hn Hd].
-  unfold sep_underscore. rewrite starts_amp_us_bit.
+  unfold sep_underscore.
   assert (E1 : rev (split_on c_us (bit_ident ident i)) =
                [] :: dec i :: last (split_on c_us ident) [] :: rev (removelast (split_on c_us ident))).
   { rewrite bit_ident_assoc, (rev_split_app _ _ _ Hn). f_equal.
@@ -385,55 +384,27 @@ Proof.
   assert (E2 : before_last c_us (bit_ident ident i) = Some (ident ++ c_us :: dec i)).
   { rewrite bit_ident_assoc. apply before_last_app. exact Hn. }
   rewrite E1, E2, (before_last_app _ _ _ (Hd i)), dec_digits, int_of_dec.
-  cbn [is_empty andb].
-  destruct (negb (starts_amp_us (ident ++ [c_us])) || is_empty (last (split_on c_us ident) []));
-    reflexivity.
+  reflexivity.
 Qed.
 
 (* 4 *)
 Theorem bitname_inverse_underscore : forall (ident : str) (i : N),
-  starts_amp_us (ident ++ [c_us]) = false ->
   sep_underscore (bit_ident ident i) = (Some i, ident).
-Proof. intros ident i H. rewrite bitname_underscore_full, H. reflexivity. Qed.
+Proof. exact bitname_underscore_full. Qed.
 
-(* identifiers "&" and "&_...": recognised only when the identifier ends in "_" *)
-Theorem bitname_inverse_underscore_amp : forall (ident : str) (i : N),
-  last (split_on c_us ident) [] = [] ->
-  sep_underscore (bit_ident ident i) = (Some i, ident).
-Proof.
-  intros ident i H. rewrite bitname_underscore_full, H. cbn [is_empty]. rewrite orb_true_r. reflexivity.
-Qed.
-
-Corollary bitname_inverse_underscore_amp_ends : forall (p : str) (i : N),
-  sep_underscore (bit_ident (p ++ [c_us]) i) = (Some i, p ++ [c_us]).
-Proof.
-  intros p i. apply bitname_inverse_underscore_amp. apply last_split_empty. right. exists p. reflexivity.
-Qed.
-
-Theorem bitname_underscore_amp_lost : forall (ident : str) (i : N),
-  starts_amp_us (ident ++ [c_us]) = true ->
-  (forall p, ident <> p ++ [c_us]) ->
-  sep_underscore (bit_ident ident i) = (None, bit_ident ident i).
-Proof.
-  intros ident i H Hp. rewrite bitname_underscore_full, H. cbn [negb orb].
-  destruct (last (split_on c_us ident) []) eqn:E; [|reflexivity].
-  apply last_split_empty in E. destruct E as [->|(p & ->)]; [discriminate|].
-  exfalso. exact (Hp p eq_refl).
-Qed.
-
-(* "&_a", bit 3: identifier "&_a_3_" is not recognised as a bit *)
+(* "&_a", bit 3: identifier "&_a_3_" is bit 3 of "&_a" (the former witness of K4) *)
 Example bitname_underscore_amp :
-  sep_underscore (bit_ident (s2l "&_a") 3) = (None, s2l "&_a_3_").
-Proof. vm_compute. reflexivity. Qed.
+  sep_underscore (bit_ident (s2l "&_a") 3) = (Some 3%N, s2l "&_a")
+  /\ starts_amp_us (s2l "&_a" ++ [c_us]) = true.
+Proof. vm_compute. split; reflexivity. Qed.
 
 (* 5 *)
 Theorem bitname_inverse : forall (ident name : str) (i : N),
-  starts_amp_us (ident ++ [c_us]) = false ->
   (match name with c :: _ => c <> c_bsl | [] => True end) ->
   net_bit (bit_ident ident i) (bit_name name i) = Some (Some i, name, ident).
 Proof.
-  intros ident name i H1 H2. unfold net_bit.
-  rewrite (bitname_inverse_underscore _ _ H1), (bitname_inverse_bracket _ _ H2). reflexivity.
+  intros ident name i H2. unfold net_bit.
+  rewrite (bitname_inverse_underscore _ _), (bitname_inverse_bracket _ _ H2). reflexivity.
 Qed.
 
 (* ------------------------------------------------------------------ *)
@@ -498,11 +469,11 @@ Example bitname_examples :
   sep_bracket (s2l "a]") = Some (None, s2l "a]") /\
   sep_bracket (s2l "a b c[3]") = Some (Some 3, s2l "a b c") /\
   sep_underscore (s2l "__") = (None, s2l "__") /\
-  sep_underscore (s2l "&_1_") = (None, s2l "&_1_") /\
+  sep_underscore (s2l "&_1_") = (Some 1, s2l "&") /\
   sep_underscore (s2l "x_1_2_") = (Some 2, s2l "x_1") /\
   sep_underscore (s2l "") = (None, s2l "") /\
   sep_underscore (s2l "_3_") = (Some 3, s2l "") /\
-  sep_underscore (s2l "&_3_") = (None, s2l "&_3_") /\
+  sep_underscore (s2l "&_3_") = (Some 3, s2l "&") /\
   sep_underscore (s2l "&__3_") = (Some 3, s2l "&_") /\
   sep_underscore (s2l "&_a__3_") = (Some 3, s2l "&_a_") /\
   dec 0 = s2l "0" /\
@@ -523,8 +494,6 @@ Print Assumptions bitname_inverse_bracket.
 Print Assumptions bitname_inverse_bracket_escaped.
 Print Assumptions bitname_underscore_full.
 Print Assumptions bitname_inverse_underscore.
-Print Assumptions bitname_inverse_underscore_amp.
-Print Assumptions bitname_underscore_amp_lost.
 Print Assumptions bitname_underscore_amp.
 Print Assumptions bitname_inverse.
 Print Assumptions scalar_name_not_bit_last.
